@@ -5,10 +5,12 @@
     inputs unchanged, is what the correspondence family [pure] decides.  The theorems below
     are the parts of the statement that are about the sources of non-determinism the model
     represents: the hash seed of uniqueItems, the order in which an instance map lists its
-    members, and the order in which a map is listed when it is marshalled.  (The order in
-    which the maps of the *schema* are ranged over is sampled by the correspondence only.) *)
+    members, the order in which the maps of the schema are ranged over (properties,
+    patternProperties, dependentSchemas, dependentRequired ..., at every depth and in every
+    schema a reference leads to), and the order in which a map is listed when it is
+    marshalled. *)
 From Coq Require Import List NArith ZArith QArith Bool Permutation.
-From JS Require Import Str StrFacts Lit Json JsonFacts Res GoValue Hash Schema CodecBase Codec Basic MarshalFacts Env Ann Validate Spec SpecMono Refine Corollaries SpecPerm OrderFree.
+From JS Require Import Str StrFacts Lit Json JsonFacts Res GoValue Hash Schema CodecBase Codec Basic MarshalFacts Env Ann Validate Spec SpecMono Refine Corollaries SpecPerm OrderFree SchemaRel SchemaPerm.
 Import ListNotations.
 
 (** the verdict is the same under every hash function (every seed of every process) *)
@@ -75,3 +77,43 @@ Theorem C14_marshal_values : forall m m',
   NoDup (keys m) -> Permutation m m' -> enc_gv (GMap m) = enc_gv (GMap m').
 Proof. exact enc_gv_map_perm. Qed.
 Print Assumptions C14_marshal_values.
+
+(** the verdict does not depend on the order in which the maps of the SCHEMA hold their
+    entries: two resolved environments whose schema objects are related by [srel] (equal
+    except for the order of the entries of their maps, recursively; [erel] relates the
+    environments node by node) give the same verdict for every instance - the loops over
+    schema.Properties, PatternProperties, DependentSchemas, DependentRequired,
+    DependencySchemas/Strings may run in any order *)
+Theorem C14_schema_map_order_spec : forall re_match n e e' j,
+  erel e e' -> spec_valid re_match n e j = spec_valid re_match n e' j.
+Proof. exact spec_valid_srel. Qed.
+Print Assumptions C14_schema_map_order_spec.
+
+Theorem C14_schema_map_order : forall re_match hash n e e' inst b,
+  erel e e' -> gv_wf inst = true -> isValidSchemaVersion (e_version e) = true ->
+  spec_valid re_match n e (den inst) = Some b ->
+  Validate re_match hash n e inst = Validate re_match hash n e' inst.
+Proof. exact Validate_map_order. Qed.
+Print Assumptions C14_schema_map_order.
+
+(** non-vacuity: {"properties": {"a": true, "b": false}, "dependentRequired": {"x": ["a"], "y": []}}
+    and the same schema with both maps listed the other way round are related *)
+Lemma srel_empty : srel empty_schema empty_schema.
+Proof. constructor; try reflexivity; constructor. Qed.
+Lemma srel_false : srel false_schema false_schema.
+Proof. constructor; try reflexivity; try constructor. exact srel_empty. Qed.
+Definition sA : schema :=
+  set_dependentRequired (Some [(lit "x"%lit, [lit "a"%lit]); (lit "y"%lit, [])])
+  (set_properties (Some [(lit "a"%lit, empty_schema); (lit "b"%lit, false_schema)]) empty_schema).
+Definition sB : schema :=
+  set_dependentRequired (Some [(lit "y"%lit, []); (lit "x"%lit, [lit "a"%lit])])
+  (set_properties (Some [(lit "b"%lit, false_schema); (lit "a"%lit, empty_schema)]) empty_schema).
+Example C14_srel_example : srel sA sB.
+Proof.
+  constructor; try reflexivity; try (constructor; fail).
+  - constructor. split; [repeat constructor; cbn; intuition discriminate|].
+    exists [(lit "y"%lit, []); (lit "x"%lit, [lit "a"%lit])]. split; [apply perm_swap|repeat constructor].
+  - constructor. split; [repeat constructor; cbn; intuition discriminate|].
+    exists [(lit "b"%lit, false_schema); (lit "a"%lit, empty_schema)]. split; [apply perm_swap|].
+    constructor; [split; [reflexivity|exact srel_false]|]. constructor; [split; [reflexivity|exact srel_empty]|constructor].
+Qed.
